@@ -243,6 +243,7 @@ def run(ck):
     ck.coq_build(["props/C03.vo", "extract/C03_extract.vo"])
     ck.print_assumptions(["DSP.C03"], ["DSP.C03." + t for t in THEOREMS])
     ck.source_tie("runner")
+    ck.source_tie("smallnat")
     ck.hygiene()
     ck.ocaml_build()
     ck.harness_build(["c03"])
